@@ -1,8 +1,9 @@
 (* Corr/C07Run.v — correspondence evaluator for C07: replays on the RefLoop model the event
    sequences the harness sent to the real session.refLoop and compares, after every event, the
    removes the real loop issued (vstor Remove log, in order) and its fileRef map (read through the
-   session's own fileRefCh) with the model's output and state.  Depends on the model and on
-   Gen/InstRefLoop only. *)
+   session's own fileRefCh) with the model's output and state; and replays on the VersionLayer model
+   the operations the harness performed on the real version layer and compares the events it sent.
+   Depends on the two model files and on Gen/InstRefLoop only. *)
 From GL Require Import Conc.RefLoop Conc.VersionLayer Gen.Consts Gen.InstRefLoop.
 From Coq Require Import NArith List Bool.
 Import ListNotations.
